@@ -845,5 +845,297 @@ Proof.
   - (* the empty PDU in flight again *)
     destruct (empty_matches (m_o m) se sz h b) eqn:EM; inversion H; subst; clear H.
     destruct (empty_matches_inv _ _ _ _ _ EM) as (Hs & Hb). subst b.
-    split; [unfold SItx, tx_in_flight; rewrite Ec; auto 10|].
+    unfold tx_in_flight in Ca. rewrite Ec in Ca.
+    split; [unfold SItx, tx_in_flight; rewrite Ec; repeat split; auto|].
+    destruct (Bool.eqb (has h sn_flag) (c_nesn c)); [|unfold SItx, tx_in_flight; rewrite Ec; repeat split; auto].
+    unfold SItx, tx_in_flight; simpl; rewrite Ec. repeat split; auto.
+    rewrite filter_app_one, counted_empty, app_nil_r. exact Ca.
+  - (* the data PDU in flight again *)
+    destruct St as [St Ne].
+    destruct (m_txq m) as [|p t] eqn:Eq; [congruence|].
+    destruct (data_matches (m_o m) p sd sz h b) eqn:DM; inversion H; subst; clear H.
+    destruct (data_matches_inv _ _ _ _ _ _ DM) as (Hs & Hb).
+    inversion Fc as [|? ? Fp Ft]; subst.
+    unfold tx_in_flight in Ca. rewrite Ec, Eq in Ca. simpl in Ca.
+    split; [unfold SItx, tx_in_flight; rewrite Ec, Eq; simpl; repeat split; auto; discriminate|].
+    destruct (Bool.eqb (has h sn_flag) (c_nesn c)) eqn:X;
+      [|unfold SItx, tx_in_flight; rewrite Ec, Eq; simpl; repeat split; auto; discriminate].
+    apply eqb_prop in X.
+    unfold SItx, tx_in_flight; simpl; rewrite Ec, Eq. simpl.
+    rewrite <- X in Ca. rewrite eqb_reflx in Ca. rewrite <- X.
+    assert (Y : Bool.eqb (negb (has h sn_flag)) (has h sn_flag) = false) by (destruct (has h sn_flag); reflexivity).
+    rewrite Y. repeat split; auto; try discriminate.
+    rewrite filter_app_one, Fp, Ca, app_nil_r. reflexivity.
+Qed.
+
+Lemma firstn1_app (A : Type) (l : list A) x : l <> [] -> firstn 1 (l ++ [x]) = firstn 1 l.
+Proof. destruct l; simpl; congruence. Qed.
+
+(* the central's NESN reaches the peripheral *)
+Lemma SItx_ack c m g m1 etc :
+  SItx c m g -> m_ack m (c_nesn c) = (m1, etc) ->
+  SItx c m1 (g_count (ack_ghost m g (c_nesn c)) 0 etc) /\
+  m_nesn m1 = m_nesn m /\ m_rxq m1 = m_rxq m.
+Proof.
+  intros (D & St & Fc & Ca & Co & Tc) M. unfold m_ack in M. unfold ack_ghost. rewrite D in *.
+  unfold tx_in_flight in Ca.
+  destruct (m_cur m) as [|se|sd] eqn:Ec.
+  - rewrite <- St, eqb_reflx in M. inversion M; subst; clear M. split; auto.
+    unfold SItx, tx_in_flight. simpl. rewrite Ec. repeat split; auto. lia.
+  - destruct (Bool.eqb se (c_nesn c)) eqn:X; inversion M; subst; clear M; (split; [|auto]).
+    + unfold SItx, tx_in_flight. simpl. rewrite Ec. repeat split; auto. lia.
+    + unfold SItx, tx_in_flight. simpl. repeat split; auto; try lia.
+  - destruct St as [St Ne].
+    assert (XY : Bool.eqb sd (c_nesn c) = Bool.eqb (c_nesn c) sd) by (destruct sd, (c_nesn c); reflexivity).
+    destruct (Bool.eqb sd (c_nesn c)) eqn:X; inversion M; subst; clear M; (split; [|auto]).
+    + rewrite <- XY in Ca. unfold SItx, tx_in_flight. simpl. rewrite Ec, <- XY. repeat split; auto. lia.
+    + rewrite <- XY in Ca.
+      destruct (m_txq m) as [|p t] eqn:Eq; [congruence|]. simpl in *.
+      inversion Fc; subst. unfold SItx, tx_in_flight. simpl. repeat split; auto.
+      * destruct sd, (c_nesn c); simpl in *; congruence.
+      * rewrite app_nil_r. exact Ca.
+      * rewrite <- app_assoc. exact Co.
+      * rewrite nlen_app_one. lia.
+Qed.
+
+Lemma ack_ghost_rx m g b :
+  g_acc (ack_ghost m g b) = g_acc g /\ g_freed (ack_ghost m g b) = g_freed g /\ g_rxc (ack_ghost m g b) = g_rxc g.
+Proof.
+  unfold ack_ghost. destruct (m_txdead m); auto. destruct (m_cur m); auto. destruct (Bool.eqb _ _); auto.
+Qed.
+
+Lemma tc_ok_inv m tc etc : m_txdead m = false -> negb (tc_ok m tc etc) = false -> tc = etc.
+Proof.
+  unfold tc_ok. intros D H. rewrite D in H. simpl in H. apply negb_false_iff, N.eqb_eq in H. exact H.
+Qed.
+
+(* ---- one operation of the closed loop ---- *)
+
+Definition cen_after (c : central) (lost : bool) (r : out) : central :=
+  match r with
+  | OResp _ _ h b _ _ => if lost then c else cen_recv c h b
+  | _ => c
+  end.
+
+Lemma cen_new_ack_tx c x h b :
+  c_nesn (cen_new (cen_ack c x) h b) = c_nesn (cen_new c h b) /\
+  c_acc (cen_new (cen_ack c x) h b) = c_acc (cen_new c h b).
+Proof.
+  unfold cen_new, cen_ack. destruct (Bool.eqb x (c_sn c)); simpl; auto.
+  destruct (Bool.eqb (has h sn_flag) (c_nesn c)); simpl; auto.
+Qed.
+
+Lemma cen_new_rx c h b :
+  c_sn (cen_new c h b) = c_sn c /\ c_cur (cen_new c h b) = c_cur c /\ c_done (cen_new c h b) = c_done c.
+Proof. unfold cen_new. destruct (Bool.eqb _ _); simpl; auto. Qed.
+
+Lemma cen_ack_tx c x : c_nesn (cen_ack c x) = c_nesn c /\ c_acc (cen_ack c x) = c_acc c.
+Proof. unfold cen_ack. destruct (Bool.eqb _ _); simpl; auto. Qed.
+
+(* the common tail: the response is checked by the monitor and then lost or seen by the central *)
+Lemma SI_resp c m g tag sz h b m' (lost : bool) :
+  SI c m g -> c_cur c <> None -> check_resp tag m sz h b = (Ok, m') ->
+  SI (if lost then c else cen_recv c h b) m' g.
+Proof.
+  intros [Srx Stx] Cur C.
+  destruct (check_resp_nesn _ _ _ _ _ _ C) as (Hn & Mn & Mq & Mo).
+  destruct (SItx_resp c m g tag sz h b m' Stx C) as (T1 & T2).
+  destruct lost.
+  - split; auto. apply (SIrx_frame c m g); auto.
+  - rewrite cen_recv_split, Hn. split.
+    + destruct (cen_new_rx (cen_ack c (m_nesn m)) h b) as (A1 & A2 & A3).
+      apply (SIrx_frame (cen_ack c (m_nesn m)) m g); auto. apply SIrx_cen_ack; auto.
+    + destruct (cen_new_ack_tx c (m_nesn m) h b) as (A1 & A2).
+      apply (SItx_frame (cen_new c h b) m' g); auto.
+Qed.
+
+Lemma SI_count0 c m g : SI c m g -> SI c m (g_count g 0 0).
+Proof.
+  intros [Srx Stx]. split.
+  - apply (SIrx_frame c m g); auto. simpl. lia.
+  - apply (SItx_frame c m g); auto. simpl. lia.
+Qed.
+
+Lemma negb_eqb_false a b : negb (a =? b) = false -> a = b.
+Proof. intros H. apply negb_false_iff, N.eqb_eq in H. exact H. Qed.
+
+Lemma SItx_dead c m g : SItx c m g -> m_txdead m = false.
+Proof. intros (D & _). exact D. Qed.
+
+(* received() for the central's current PDU *)
+Lemma SI_rx c m g p md r m' lost :
+  SI c m g -> c_cur c = Some p ->
+  mstep m (Rx (cen_hl c p md) (snd p)) r = (Ok, m') ->
+  SI (cen_after c lost r) m' (gstep m g (Rx (cen_hl c p md) (snd p)) r).
+Proof.
+  intros S Cur H. pose proof S as [Srx Stx].
+  assert (P4 : fst p < 4) by (destruct Srx as (_ & _ & C & _); apply C; auto).
+  destruct (cen_hl_facts c p md P4) as (H1 & H2 & H3 & H4).
+  assert (CurN : c_cur c <> None) by congruence.
+  destruct r as [| | | | | |k sz h b rc tc|]; simpl in H; try discriminate.
+  - inversion H; subst. exact S.
+  - destruct k.
+    + (* received() *)
+      rewrite H2 in H.
+      destruct (m_ack m (c_nesn c)) as [m1 etc] eqn:MA.
+      destruct (m_accept m1 (cen_hl c p md) (snd p)) as [m2 erc] eqn:MACC.
+      destruct (check_resp t_nesn_rx m2 sz h b) as [[|tag] m3] eqn:C; [|discriminate].
+      destruct (negb (rc =? erc)) eqn:RC; [discriminate|].
+      destruct (negb (tc_ok m3 tc etc)) eqn:TC; [discriminate|]. inversion H; subst m3; clear H.
+      apply negb_eqb_false in RC. subst erc.
+      destruct (SItx_ack c m g m1 etc Stx MA) as (T1 & N1 & Q1).
+      set (g1 := ack_ghost m g (c_nesn c)) in *.
+      destruct (ack_ghost_rx m g (c_nesn c)) as (G1 & G2 & G3). fold g1 in G1, G2, G3.
+      assert (R1 : SIrx c m1 g1) by (apply (SIrx_frame c m g); auto).
+      destruct (SIrx_accept c m1 g1 p md m2 rc R1 Cur MACC) as (R2 & X1 & X2 & X3 & X4).
+      cbv zeta in R2.
+      assert (D3 : m_txdead m' = false).
+      { rewrite (check_resp_txdead _ _ _ _ _ _ _ C), X4. apply (SItx_dead c m1 _ T1). }
+      pose proof (tc_ok_inv m' tc etc D3 TC) as TE. subst etc.
+      simpl gstep. rewrite H2, MA. simpl fst. fold g1.
+      set (g2 := if Bool.eqb (has (cen_hl c p md) sn_flag) (m_nesn m1)
+                 then gw_acc g1 (g_acc g1 ++ [(llid (cen_hl c p md), snd p)]) else g1) in *.
+      assert (S2 : SI c m2 (g_count g2 rc tc)).
+      { split.
+        - apply (SIrx_frame c m2 (g_count g2 rc 0)); auto.
+        - apply (SItx_frame c m1 (g_count g1 0 tc)); auto;
+            unfold g2; destruct (Bool.eqb _ _); reflexivity. }
+      apply (SI_resp c m2 _ t_nesn_rx sz h b m' lost S2 CurN C).
+    + discriminate.
+    + (* no receive buffer: next_transmit() only *)
+      destruct (check_resp t_nesn_nobuf m sz h b) as [[|tag] m3] eqn:C; [|discriminate].
+      destruct (negb (rc =? 0)) eqn:RC; [discriminate|].
+      destruct (negb (tc =? 0)) eqn:TC; [discriminate|]. inversion H; subst m3; clear H.
+      apply negb_eqb_false in RC. apply negb_eqb_false in TC. subst rc tc.
+      simpl gstep. apply (SI_resp c m _ t_nesn_nobuf sz h b m' lost (SI_count0 c m g S) CurN C).
+Qed.
+
+(* acknowledge(): CRC ok, MIC failed *)
+Lemma SI_mic c m g p md r m' lost :
+  SI c m g -> c_cur c = Some p ->
+  mstep m (Mic (cen_hl c p md) (snd p)) r = (Ok, m') ->
+  SI (cen_after c lost r) m' (gstep m g (Mic (cen_hl c p md) (snd p)) r).
+Proof.
+  intros S Cur H. pose proof S as [Srx Stx].
+  assert (P4 : fst p < 4) by (destruct Srx as (_ & _ & C & _); apply C; auto).
+  destruct (cen_hl_facts c p md P4) as (H1 & H2 & H3 & H4).
+  assert (CurN : c_cur c <> None) by congruence.
+  destruct r as [| | | | | |k sz h b rc tc|]; simpl in H; try discriminate.
+  - inversion H; subst. exact S.
+  - destruct k.
+    + discriminate.
+    + rewrite H2, H4 in H. simpl gstep. rewrite H2, H4.
+      destruct (negb (fst p =? 0)) eqn:L0.
+      * destruct (m_ack m (c_nesn c)) as [m1 etc] eqn:MA.
+        destruct (check_resp t_nesn_mic m1 sz h b) as [[|tag] m3] eqn:C; [|discriminate].
+        destruct (negb (rc =? 0)) eqn:RC; [discriminate|].
+        destruct (negb (tc_ok m3 tc etc)) eqn:TC; [discriminate|]. inversion H; subst m3; clear H.
+        apply negb_eqb_false in RC. subst rc.
+        destruct (SItx_ack c m g m1 etc Stx MA) as (T1 & N1 & Q1).
+        set (g1 := ack_ghost m g (c_nesn c)) in *.
+        destruct (ack_ghost_rx m g (c_nesn c)) as (G1 & G2 & G3). fold g1 in G1, G2, G3.
+        assert (D3 : m_txdead m' = false).
+        { rewrite (check_resp_txdead _ _ _ _ _ _ _ C). apply (SItx_dead c m1 _ T1). }
+        pose proof (tc_ok_inv m' tc etc D3 TC) as TE. subst etc.
+        assert (S2 : SI c m1 (g_count g1 0 tc)).
+        { split; auto. apply (SIrx_frame c m g); auto. simpl. lia. }
+        apply (SI_resp c m1 _ t_nesn_mic sz h b m' lost S2 CurN C).
+      * destruct (check_resp t_nesn_mic m sz h b) as [[|tag] m3] eqn:C; [|discriminate].
+        destruct (negb (rc =? 0)) eqn:RC; [discriminate|].
+        destruct (negb (tc_ok m3 tc 0)) eqn:TC; [discriminate|]. inversion H; subst m3; clear H.
+        apply negb_eqb_false in RC. subst rc.
+        assert (D3 : m_txdead m' = false).
+        { rewrite (check_resp_txdead _ _ _ _ _ _ _ C). apply (SItx_dead c m _ Stx). }
+        pose proof (tc_ok_inv m' tc 0 D3 TC) as TE. subst tc.
+        apply (SI_resp c m _ t_nesn_mic sz h b m' lost (SI_count0 c m g S) CurN C).
+    + destruct (check_resp t_nesn_nobuf m sz h b) as [[|tag] m3] eqn:C; [|discriminate].
+      destruct (negb (rc =? 0)) eqn:RC; [discriminate|].
+      destruct (negb (tc =? 0)) eqn:TC; [discriminate|]. inversion H; subst m3; clear H.
+      apply negb_eqb_false in RC. apply negb_eqb_false in TC. subst rc tc.
+      simpl gstep. apply (SI_resp c m _ t_nesn_nobuf sz h b m' lost (SI_count0 c m g S) CurN C).
+Qed.
+
+(* the link layer calls the buffer *)
+Lemma SI_ll c m g o r m' :
+  SI c m g -> ll_op_ok o = true -> mstep m o r = (Ok, m') -> SI c m' (gstep m g o r).
+Proof.
+  intros S L H. pose proof S as [Srx Stx].
+  destruct o as [n|n| | |n hl body| | | |hl body|hl body| ]; simpl in L; try discriminate.
+  - destruct r; simpl in H; try discriminate; inversion H; subst; exact S.
+  - destruct r; simpl in H; try discriminate; inversion H; subst; exact S.
+  - destruct r; simpl in H; try discriminate; inversion H; subst. split.
+    + apply (SIrx_frame c m g); auto.
+    + apply (SItx_frame c m g); auto.
+  - (* Tx *)
+    apply andb_true_iff in L. destruct L as [L28 LB].
+    destruct r as [| | |ok| | | |]; simpl in H; try discriminate.
+    + inversion H; subst; exact S.
+    + destruct ok; [|inversion H; subst; exact S].
+      simpl gstep. destruct (m_stopped m); [inversion H; subst; exact S|].
+      rewrite L28 in H. inversion H; subst; clear H. split.
+      * apply (SIrx_frame c m g); auto.
+      * destruct Stx as (D & St & Fc & Ca & Co & Tc). unfold SItx, tx_in_flight in *. simpl.
+        assert (CT : counted (llid hl, body) = true) by exact LB.
+        repeat split; auto.
+        -- destruct (m_cur m); auto. destruct St as [St Ne]. split; auto.
+           destruct (m_txq m); simpl; congruence.
+        -- apply Forall_app. split; auto.
+        -- destruct (m_cur m); auto. destruct St as [St Ne]. destruct (m_txq m); [congruence|]. simpl in *. exact Ca.
+        -- rewrite Co, app_assoc. reflexivity.
+  - (* Pend *)
+    destruct r; simpl in H; try discriminate.
+    destruct (m_txdead m || _); inversion H; subst; exact S.
+  - (* NextRecv *)
+    destruct r; simpl in H; try discriminate.
+    + destruct (m_rxq m); inversion H; subst; exact S.
+    + destruct (m_rxq m) as [|[h' b'] t]; [discriminate|].
+      destruct (_ && _); inversion H; subst; exact S.
+  - (* FreeRecv *)
+    destruct r; simpl in H; try discriminate.
+    + destruct (m_rxq m) as [|x t] eqn:Eq; [discriminate|]. inversion H; subst; clear H. simpl gstep. split.
+      * destruct Srx as (A & B & C & D & E). unfold SIrx, rx_in_flight in *. simpl. rewrite Eq in *.
+        repeat split; auto. simpl. rewrite <- app_assoc. exact D.
+      * apply (SItx_frame c m g); auto.
+    + destruct (m_rxq m); inversion H; subst; exact S.
+Qed.
+
+Lemma SI_load c m g fresh :
+  SI c m g -> cpdu_ok fresh = true ->
+  SI (cen_load c fresh) m g /\ exists p, c_cur (cen_load c fresh) = Some p.
+Proof.
+  intros [Srx Stx] F. destruct (SIrx_load c m g fresh Srx F) as (R & N). split.
+  - split; auto. apply (SItx_frame c m g); auto; unfold cen_load; destruct (c_cur c); reflexivity.
+  - destruct (c_cur (cen_load c fresh)) as [p|]; [eauto|congruence].
+Qed.
+
+(* T2: the closed loop keeps the refinement relation and the alternating-bit invariant; the whole
+   trace is accepted by the monitor *)
+Lemma sys_run_inv cf evs : forall c s m g,
+  Rel cf s m -> SI c m g -> Forall (fun e => event_ok e = true) evs ->
+  exists m' g', grun m g (snd (sys_run cf (c, s) evs)) = Some (m', g') /\
+                Rel cf (snd (fst (sys_run cf (c, s) evs))) m' /\ SI (fst (fst (sys_run cf (c, s) evs))) m' g'.
+Proof.
+  induction evs as [|e t IH]; intros c s m g R S F.
+  - simpl. eauto.
+  - inversion F as [|? ? Fe Ft]; subst. simpl sys_run.
+    destruct e as [o|fresh md f lost]; simpl in Fe.
+    + (* link layer operation *)
+      simpl sys_step. destruct (step cf s o) as [s' r] eqn:E.
+      destruct (step_rel cf s m o s' r R E) as (m' & M & R').
+      pose proof (SI_ll c m g o r m' S Fe M) as S'.
+      destruct (IH c s' m' (gstep m g o r) R' S' Ft) as (m2 & g2 & G & R2 & S2).
+      destruct (sys_run cf (c, s') t) as [[c2 s2] tr2]. simpl in *.
+      rewrite M. eauto.
+    + (* connection event *)
+      destruct (SI_load c m g fresh S Fe) as (S1 & p & Cur).
+      simpl sys_step. set (c1 := cen_load c fresh) in *.
+      assert (CP : cen_pdu c1 = p) by (unfold cen_pdu; rewrite Cur; reflexivity).
+      destruct f; simpl event_op.
+      * (* the central's packet is lost *)
+        destruct (IH c1 s m g R S1 Ft) as (m2 & g2 & G & R2 & S2).
+        destruct (sys_run cf (c1, s) t) as [[c2 s2] tr2]. simpl in *. eauto.
+      * rewrite CP.
+        destruct (step cf s (Rx (cen_hl c1 p md) (snd p))) as [s' r] eqn:E.
+        destruct (step_rel cf s m _ s' r R E) as (m' & M & R').
+        pose proof (SI_rx c1 m g p md r m' lost S1 Cur M) as S'.
 Show.
